@@ -73,6 +73,14 @@ for _mk, _parser, _sel in [
     _b = [e.get('id') for e in soupsieve.select(_sel, _soup)]
     _c = _soup.select_one(_sel)
     _out.append([_a, _b, _c.get('id') if _c is not None else None])
+# optional arguments travel through Beautiful Soup's glue code (which passes them positionally)
+_soup = BeautifulSoup('<ul><li id="1"/><li id="2"/><li id="3"/><li id="4"/></ul>', 'html.parser')
+for _lim in (1, 2, 3, 0):
+    _a = [e.get('id') for e in _soup.select('li', limit=_lim)]
+    _b = [e.get('id') for e in soupsieve.select('li', _soup, limit=_lim)]
+    _i = [e.get('id') for e in _soup.css.iselect('li', limit=_lim)] if hasattr(_soup, 'css') else _a
+    _out.append([_a, _b, _a[0] if _a else None])
+    _out.append([_i, _b, _i[0] if _i else None])
 _NS = {'xlink': 'http://www.w3.org/1999/xlink', 'svg': 'http://www.w3.org/2000/svg', 'x': 'urn:x'}
 for _mk, _parser, _sel in [
     ('<r xmlns:xlink="http://www.w3.org/1999/xlink" xmlns:x="urn:x"><a id="1" xlink:href="u"/><a id="2" href="u"/><x:b id="3" xml:lang="de"/></r>',
